@@ -95,6 +95,31 @@ def run_shards(prop, tier, seed, nshards, workdir, only=None):
     return results, problems
 
 
+def run_repo_tests_under_monitors(prop, seed, workdir):
+    """extra workload of the thorough tier: the repository's own tests executed under this property's passive
+    contracts (pytest plugin vf.pytest_plugin; nothing in the repository is touched)"""
+    tests = os.path.join(env.REPO, 'tests')
+    if not os.path.isdir(tests):
+        return None
+    out = os.path.join(workdir, 'repo-tests.json')
+    e = child_env()
+    e['VF_PLUGIN_PROP'] = prop
+    e['VF_PLUGIN_OUT'] = out
+    e['VERIF_SEED'] = str(seed)
+    try:
+        p = subprocess.run([PY, '-m', 'pytest', '-q', '-p', 'no:cacheprovider', '-p', 'vf.pytest_plugin', '--timeout=900',
+                            '--rootdir', env.REPO, '-c', os.path.join(env.REPO, 'pyproject.toml'), tests],
+                           cwd=VERIF, env=e, capture_output=True, text=True, timeout=1500)
+    except subprocess.TimeoutExpired:
+        return 'repository tests under monitors: watchdog fired (inconclusive)'
+    if not os.path.exists(out):
+        return 'repository tests under monitors produced no report: ' + (p.stdout + p.stderr)[-600:]
+    r = json.load(open(out))
+    r.setdefault('extra', {})['n_repo_tests_run_under_monitors'] = r.get('cases', 0)
+    r['extra']['repo_tests_pytest_exit'] = r.get('pytest_exitstatus')
+    return r
+
+
 def merge(results):
     m = {'evaluations': 0, 'clauses': collections.Counter(), 'nontrivial': set(), 'sigs': collections.Counter(),
          'greys': collections.Counter(), 'samples': [], 'violations': [], 'n_violations': 0,
@@ -181,6 +206,12 @@ def main(argv=None):
         else:
             ns = nshards or getattr(mod, 'NSHARDS', NSHARDS)[tier]
             results, problems = run_shards(prop, tier, seed, ns, workdir)
+            if tier == 'thorough' and getattr(mod, 'contracts', None):
+                r = run_repo_tests_under_monitors(prop, seed, workdir)
+                if isinstance(r, dict):
+                    results.append(r)
+                elif r:
+                    problems.append(r)
         m = merge(results)
         return report(prop, mod, tier, seed, ns, m, problems, time.time() - t0, replay)
     finally:
